@@ -43,6 +43,20 @@
 //   - Extract with a header that parses replaces the baggage of the context;
 //     this is asserted only for a parent context without baggage. A header
 //     that does not parse must leave the parent's baggage in place.
+//   - Contexts that went through the hook installers of internal/baggage
+//     (ContextWithSetHook / ContextWithGetHook, the OpenTracing bridge's entry
+//     points) are contexts like any other: with pass-through hooks, what is
+//     stored in them or extracted into them must be what they return, and later
+//     edits must not change it. What the installer itself leaves in the derived
+//     context, and whether / with which arguments the hooks are called, is only
+//     recorded (class labels), not asserted.
+//   - A Member read from a Baggage (Member / Members) is a member like any
+//     other: setting it on another value or handing it to New must work
+//     (Member of an absent key is documented to be the zero Member, which
+//     SetMember documents as an error).
+//   - Optional whitespace inside a list-member (around "=" and ";") is part of
+//     the list-member (W3C grammar) and counts towards its 4096 bytes; only the
+//     whitespace at its outer ends belongs to the list separator.
 package c11
 
 import (
